@@ -292,6 +292,7 @@ Definition svc_read (p : project) (pol : policy) (img : bytes) (l : wloc) (cap :
       let n := u16 e0 e1 in
       match loc_esize p l, type_bytes p l with
       | Some s, Some tb =>
+          if s <? 1 then fail 76 E_SEG else
           if (n <? 1) || (w_avail l <? n) then fail 76 E_COUNT else
           let total := n * s in
           let room := cap - 4 - blen tb in
@@ -317,6 +318,7 @@ Definition svc_read_frag (p : project) (pol : policy) (img : bytes) (l : wloc) (
       let off := u32 o0 o1 o2 o3 in
       match loc_esize p l, type_bytes p l with
       | Some s, Some tb =>
+          if s <? 1 then fail 82 E_SEG else
           if (n <? 1) || (w_avail l <? n) then fail 82 E_COUNT else
           let total := n * s in
           if total <=? off then fail 82 E_INDEX else
